@@ -91,9 +91,11 @@ func matrixFor(prop string) []string {
 	case "C01":
 		return gen.MatrixKinds
 	case "C12":
-		return []string{"reserved", "numbered", "derived"}
+		return []string{"reserved", "numbered", "derived", "initialisms"}
 	case "C13":
-		return []string{"initialisms", "derived", "numbered"}
+		return []string{"initialisms", "derived", "numbered", "stale"}
+	case "C11":
+		return []string{"stale"}
 	}
 	return nil
 }
